@@ -72,3 +72,50 @@ contract(F, "CombinatorialSpecificationSearcher.auto_search", props=["C01"], len
                         "ExceededMaxtimeError": ["not self.ruledb.has_spec_now"]},
          modifies=["self.ruledb.has_spec_now"],
          notes="the returned specification is rooted at the start class and built from the rules handed out by the loop")
+
+# ------------------------------------------------------------------ C04: what the searcher records
+import z3
+from . import class_db, rule
+from .class_db import ClassKey
+klass(F, "CSSSearcherFull", fields={})     # placeholder (keeps registry order stable)
+REG.classes["CombinatorialSpecificationSearcher"].fields.update({"classdb": Obj("ClassDB"), "debug": Bool})
+CSSstrategy = Opaque("CSSstrategy")
+SAL = {"ClassKey": ClassKey, "CombClass": CombClass, "CSSstrategy": CSSstrategy}
+
+contract(F, "CombinatorialSpecificationSearcher._rules_from_strategy", props=["C04"], verify=False, aliases=SAL,
+         trusted_reason="dispatch over user strategies/factories (isinstance on user objects); its statement is checked by "
+                        "the bounded monitor on RuleDB.add",
+         params={"comb_class": CombClass, "strategy": CSSstrategy}, returns=Seq(Obj("Rule")),
+         yields=["True"], modifies=[])
+
+_LBL = "self.classdb.comb_class_list[{l}] == compress({c})"
+contract(F, "CombinatorialSpecificationSearcher._expand_class_with_strategy", props=["C04"], lenient=True, aliases=SAL,
+         params={"self": S, "comb_class": CombClass, "strategy_generator": CSSstrategy, "label": Opt(Int), "initial": Bool},
+         returns=Seq(Tup(Int, Seq(Int), Obj("Rule"))),
+         locals={"_comp0": List(Int), "end_labels": List(Int)},
+         requires=["wf(self.classdb)", "not self.debug",
+                   "implies(not is_none(label), 0 <= val(label) and val(label) < len(self.classdb.comb_class_list) and "
+                   + _LBL.format(l="val(label)", c="comb_class") + ")"],
+         yields=[
+             # the parent label is the label of the rule's own class (which may differ from the expanded class)
+             "0 <= it[0] and it[0] < len(self.classdb.comb_class_list) and " + _LBL.format(l="it[0]", c="it[2].comb_class"),
+             # child labels are exactly the labels of the rule's children, in order
+             "len(it[1]) == len(children_of(it[2]))",
+             "forall(lambda i: implies(0 <= i and i < len(it[1]), 0 <= it[1][i] and it[1][i] < len(self.classdb.comb_class_list) "
+             "and " + _LBL.format(l="it[1][i]", c="children_of(it[2])[i]") + "))",
+             # a rule whose single child is its own parent is never recorded
+             "not (len(children_of(it[2])) == 1 and it[2].comb_class == children_of(it[2])[0])",
+             "wf(self.classdb)"],
+         comp_loops={0: dict(invariant=[
+             "wf(self.classdb)", "len(_comp0) == _ic0",
+             "forall(lambda i: implies(0 <= i and i < _ic0, 0 <= _comp0[i] and _comp0[i] < len(self.classdb.comb_class_list) and "
+             + _LBL.format(l="_comp0[i]", c="children[i]") + "))",
+             "implies(not is_none(label), val(label) < len(self.classdb.comb_class_list) and " + _LBL.format(l="val(label)", c="comb_class") + ")"],
+             modifies=["*_comp0", "*self.classdb.comb_class_list", "*self.classdb.label_dict", "*self.classdb.empty_list"])},
+         loops={0: dict(invariant=["wf(self.classdb)", "not is_none(label)",
+                                   "val(label) < len(self.classdb.comb_class_list) and " + _LBL.format(l="val(label)", c="comb_class")],
+                        modifies=["*self.classdb.comb_class_list", "*self.classdb.label_dict", "*self.classdb.empty_list",
+                                  "all:List(Int)", "all:Obj('AbstractRule')"])},
+         modifies=["*self.classdb.comb_class_list", "*self.classdb.label_dict", "*self.classdb.empty_list",
+                   "all:List(Int)", "all:Obj('AbstractRule')"],
+         notes="every recorded (start, ends, rule) carries the labels of the rule's own parent and children, in order")
